@@ -46,8 +46,9 @@ void h_barrier_wait(void)
 {
     setup();
     unsigned w0 = vf_wl_waits, b0 = vf_wl_bcasts, a0 = vf_acquires, r0 = vf_releases;
-    size_t cnt0 = ba.counter;
+    size_t cnt0 = ba.counter, nw0 = ba.num_waiters; ABTI_waitlist wl0 = ba.waitlist;
     int r = ABT_barrier_wait((ABT_barrier)&ba);
+    VF_ASSERT(ba.num_waiters == nw0 && ba.waitlist.p_head == wl0.p_head && ba.waitlist.p_tail == wl0.p_tail && ba.waitlist.futex.val.val == wl0.futex.val.val, "frame: an arrival never changes the number of waiters the barrier was created for, nor the wait-list words outside the wait-list operations");
     if (caller_is_tasklet) {
         VF_ASSERT(r == ABT_ERR_BARRIER && ba.counter == cnt0 && vf_acquires == a0 && vf_releases == r0 && vf_wl_waits == w0 && vf_wl_bcasts == b0 && vf_lock_held == 0,
                   "tasklet caller rejected with nothing changed (not counted as an arrival)");
@@ -57,6 +58,7 @@ void h_barrier_wait(void)
     VF_ASSERT(r == ABT_SUCCESS && vf_lock_held == 0 && vf_acquires == a0 + 1 && vf_releases == r0 + 1 && vf_lock_which == &ba.lock, "one critical section on the barrier's lock");
     if (vf_c_at_lock + 1 < ba.num_waiters) {
         VF_ASSERT(vf_wl_waits == w0 + 1 && vf_wl_bcasts == b0 && vf_wl_which == &ba.waitlist, "round not complete: the caller waits, nobody is released");
+        VF_ASSERT(vf_t_acquire < vf_t_wl_wait, "... counted and enqueued inside the critical section");
     } else {
         VF_ASSERT(vf_wl_waits == w0 && vf_wl_bcasts == b0 + 1 && vf_wl_which == &ba.waitlist, "last arrival: exactly one broadcast, does not wait itself");
         VF_ASSERT(vf_wl_woken == ba.num_waiters - 1, "the broadcast releases all other num_waiters-1 callers of this round");
